@@ -3,6 +3,7 @@ package loadbalancer
 import (
 	"bufio"
 	"context"
+	"errors"
 	"fmt"
 	"net"
 	"net/http"
@@ -603,6 +604,12 @@ func (lb *LoadBalancer) checkRateLimit(w http.ResponseWriter, r *http.Request) b
 	return true
 }
 
+// errBackendFailure is returned by handleRequest when the proxied request failed
+// (5xx from the backend, or the backend was unreachable). The response has already been
+// written and the metrics recorded; the error only tells the circuit breaker to count
+// a failure.
+var errBackendFailure = errors.New("backend request failed")
+
 // ServeHTTP implements the http.Handler interface
 func (lb *LoadBalancer) ServeHTTP(w http.ResponseWriter, r *http.Request) {
 	startTime := time.Now()
@@ -621,7 +628,7 @@ func (lb *LoadBalancer) ServeHTTP(w http.ResponseWriter, r *http.Request) {
 		err := lb.circuitBreaker.Execute(func() error {
 			return lb.handleRequest(w, r, startTime)
 		})
-		if err != nil {
+		if err != nil && !errors.Is(err, errBackendFailure) {
 			failureCount, successCount, requestCount := lb.circuitBreaker.Counts()
 			logger.Error().
 				Err(err).
@@ -643,7 +650,7 @@ func (lb *LoadBalancer) ServeHTTP(w http.ResponseWriter, r *http.Request) {
 		}
 	} else {
 		// Execute without circuit breaker
-		if err := lb.handleRequest(w, r, startTime); err != nil {
+		if err := lb.handleRequest(w, r, startTime); err != nil && !errors.Is(err, errBackendFailure) {
 			logger.Error().Err(err).Msg("request handling failed")
 		}
 	}
@@ -712,6 +719,9 @@ func (lb *LoadBalancer) proxyRequest(backend *Backend, w http.ResponseWriter, r 
 	// Record metrics and handle passive health checks
 	lb.recordRequestMetrics(backend, rw.statusCode, startTime, r)
 
+	if rw.statusCode >= 500 {
+		return errBackendFailure
+	}
 	return nil
 }
 
